@@ -244,8 +244,8 @@ theorem join_equal_inner (m : Rat) (ltsRest ltsG stsT stsG : List Rat)
     `k` is the kind the call resolves to; `Covered` = linear with any number of curves, the
     parabola for three, the cubic for four, Lagrange with any number.  `h_eq` lands on the stored
     height `c.h` when `1/(B/H)·B` is exactly `c.h`, or within `close_tolerance` of it and `c.h` is
-    the largest / smallest stored height.  Whatever table an earlier call left behind (`cache`) is
-    reused; as long as that table is of a covered kind the answer is the same. -/
+    the largest / smallest stored height.  Whatever table an earlier call left behind (`cache`), the
+    answer is the same (the table is rebuilt when it was built for another kind or fill mode). -/
 theorem interp_at_node (gf : GF) (bOverH : Rat) (kind : Kind) (k : RKind) (cache : Cache)
     (c : Curve) (mx mn : Rat)
     (hc : c ∈ gf.curves) (hd : (gf.curves.map (·.h)).Pairwise (· ≠ ·))
@@ -253,7 +253,7 @@ theorem interp_at_node (gf : GF) (bOverH : Rat) (kind : Kind) (k : RKind) (cache
     (hsep : Separated (gf.curves.map (·.h))) (hb : bOverH ≠ 0)
     (hmx : pyMaxL (gf.curves.map (·.h)) = .ok mx) (hmn : pyMinL (gf.curves.map (·.h)) = .ok mn)
     (hres : resolveKind kind gf.curves.length = .ok (some k))
-    (hcov : Covered k gf.curves.length) (hcache : ∀ ce, cache = some ce → Covered ce.1 gf.curves.length)
+    (hcov : Covered k gf.curves.length)
     (hcase : 1 / bOverH * gf.B = c.h
       ∨ (c.h = mx ∧ |1 / bOverH * gf.B - mx| < Gen.GJoinConsts.closeTolerance)
       ∨ (c.h = mn ∧ |1 / bOverH * gf.B - mn| < Gen.GJoinConsts.closeTolerance)) :
@@ -272,14 +272,38 @@ theorem interp_at_node (gf : GF) (bOverH : Rat) (kind : Kind) (k : RKind) (cache
     unfold needsExtrap
     simp [hmnle c.h hhs, hmxle c.h hhs]
   unfold gFunctionInterpolation
-  simp only [hq, hmx, hmn, hres, bind, Except.bind, hex]
-  cases cache with
-  | none =>
-    simp only [interpTable_at_node gf k false c hc hd hlen hcov, pure, Except.pure]
-    exact ⟨_, rfl, rfl, rfl, rfl, rfl, rfl, rfl⟩
-  | some ce =>
-    simp only [interpTable_at_node gf ce.1 ce.2 c hc hd hlen (hcache ce rfl), pure, Except.pure]
-    exact ⟨_, rfl, rfl, rfl, rfl, rfl, rfl, rfl⟩
+  simp only [hq, hmx, hmn, hres, bind, Except.bind, hex, tableFor_eq,
+    interpTable_at_node gf k false c hc hd hlen hcov, pure, Except.pure]
+  exact ⟨_, rfl, rfl, rfl, rfl, rfl, rfl, rfl⟩
+
+/-- **No dependence on the call history.**  Whatever table state earlier calls left behind, a call
+    returns the same curve, radius, depth, equivalent height and warning as on a fresh object. -/
+theorem interp_independent_of_history (gf : GF) (bOverH : Rat) (kind : Kind) (cache : Cache) :
+    (gFunctionInterpolation gf bOverH kind cache).map (fun o => (o.g, o.rb, o.d, o.hEq, o.warned, o.single))
+      = (gFunctionInterpolation gf bOverH kind none).map (fun o => (o.g, o.rb, o.d, o.hEq, o.warned, o.single)) := by
+  unfold gFunctionInterpolation
+  cases hq : hEqOf gf.B bOverH (gf.curves.map (·.h)) with
+  | error e => simp only [hq, bind, Except.bind, Except.map]
+  | ok hEq =>
+    cases hmx : pyMaxL (gf.curves.map (·.h)) with
+    | error e => simp only [hq, hmx, bind, Except.bind, Except.map]
+    | ok mx =>
+      cases hmn : pyMinL (gf.curves.map (·.h)) with
+      | error e => simp only [hq, hmx, hmn, bind, Except.bind, Except.map]
+      | ok mn =>
+        cases hr : resolveKind kind gf.curves.length with
+        | error e => simp only [hq, hmx, hmn, bind, Except.bind, Except.map]
+        | ok r =>
+          cases r with
+          | none =>
+            simp only [hq, hmx, hmn, bind, Except.bind, singleCurve]
+            split
+            · rfl
+            · split
+              · rfl
+              · split <;> rfl
+          | some k =>
+            simp only [hq, hmx, hmn, bind, Except.bind, tableFor_eq]
 
 /-- What the pipeline produces: `kind="default"` resolves to linear for two stored heights, to the
     parabola for three (`[min, avg, max]` during sizing); Lagrange and linear for any number. -/
@@ -451,7 +475,8 @@ theorem join_degenerate_raises (ltsT ltsG stsT stsG : List Rat) :
     simp only [hj, bind, Except.bind, interp1dCtor, ne_eq, hlen, not_false_eq_true, if_true]
 
 /-- The table state reported after a successful table call is the one `tableAfter` predicts (the
-    function the harness uses to thread the cache through calls that raise). -/
+    function the harness uses to thread the state through calls that raise): `built_for` of the
+    present call. -/
 theorem table_state_consistent (gf : GF) (bOverH : Rat) (kind : Kind) (cache : Cache) (o : InterpOut)
     (h : gFunctionInterpolation gf bOverH kind cache = .ok o) (hs : o.single = false) :
     o.cache = tableAfter gf bOverH kind cache := by
@@ -481,27 +506,17 @@ theorem table_state_consistent (gf : GF) (bOverH : Rat) (kind : Kind) (cache : C
                 · injection h with h; subst h; simp at hs
                 · simp at h
           | some k =>
-            simp only [hq, hmx, hmn, hr, bind, Except.bind] at h
-            cases cache with
-            | some ce =>
-              simp only at h
-              cases ht : interpTable gf ce.1 ce.2 hEq with
-              | error e => simp [ht] at h
-              | ok v =>
-                simp only [ht, pure, Except.pure] at h
-                injection h with h; subst h; rfl
-            | none =>
-              simp only at h
-              cases ht : interpTable gf k (needsExtrap hEq mn mx) hEq with
-              | error e => simp [ht] at h
-              | ok v =>
-                simp only [ht, pure, Except.pure] at h
-                injection h with h; subst h
-                simp only
-                unfold interpTable at ht
-                cases hc : (List.range gf.logTime.length).mapM (column gf.curves) with
-                | error e => simp [hc, bind, Except.bind] at ht
-                | ok cols => simp only [hq, hmx, hmn]
+            simp only [hq, hmx, hmn, hr, bind, Except.bind, tableFor_eq] at h
+            cases ht : interpTable gf k (needsExtrap hEq mn mx) hEq with
+            | error e => simp [ht] at h
+            | ok v =>
+              simp only [ht, pure, Except.pure] at h
+              injection h with h; subst h
+              simp only
+              unfold interpTable at ht
+              cases hc : (List.range gf.logTime.length).mapM (column gf.curves) with
+              | error e => simp [hc, bind, Except.bind] at ht
+              | ok cols => simp only [hq, hmx, hmn]
 
 /-! ### Non-vacuity: each set of hypotheses is met by a concrete input -/
 
@@ -546,15 +561,15 @@ example : ∃ o, gFunctionInterpolation gf3 (2 / 39) .default none = .ok o ∧ o
     gf3_separated (by norm_num)
     (by simp only [gf3, List.map_cons, List.map_nil, pyMaxL, List.foldl, ratMax]; norm_num)
     (by simp only [gf3, List.map_cons, List.map_nil, pyMinL, List.foldl, ratMin]; norm_num)
-    (by decide) (Or.inr (Or.inl ⟨rfl, rfl⟩)) (by intro ce h; cases h)
+    (by decide) (Or.inr (Or.inl ⟨rfl, rfl⟩))
     (Or.inl (by simp only [gf3]; norm_num))
   exact ⟨o, h, hg, hr⟩
 
 /-- Snapping: asked 4·10⁻⁷ m above the largest stored height, the largest curve is returned;
-    the table left by the first call is reused. -/
-example : ∃ o, gFunctionInterpolation gf3 (5 / (135 + 4 / 10 ^ 7)) .default (some (.quadratic, false)) = .ok o ∧
+    whatever table an earlier call left (here: a linear, extrapolating one). -/
+example : ∃ o, gFunctionInterpolation gf3 (5 / (135 + 4 / 10 ^ 7)) .default (some (.linear, true)) = .ok o ∧
     o.g = [4, 9] := by
-  obtain ⟨o, h, hg, _⟩ := interp_at_node gf3 (5 / (135 + 4 / 10 ^ 7)) .default .quadratic (some (.quadratic, false)) ⟨135, 3 / 40, [4, 9]⟩ 135 60
+  obtain ⟨o, h, hg, _⟩ := interp_at_node gf3 (5 / (135 + 4 / 10 ^ 7)) .default .quadratic (some (.linear, true)) ⟨135, 3 / 40, [4, 9]⟩ 135 60
     (by simp [gf3])
     (by simp only [gf3, List.map_cons, List.map_nil, List.pairwise_cons, List.mem_cons, List.not_mem_nil, or_false, forall_eq_or_imp, forall_eq]; norm_num)
     (by intro c' hc'; simp only [gf3, List.mem_cons, List.not_mem_nil, or_false] at hc'; rcases hc' with rfl | rfl | rfl <;> rfl)
@@ -562,7 +577,6 @@ example : ∃ o, gFunctionInterpolation gf3 (5 / (135 + 4 / 10 ^ 7)) .default (s
     (by simp only [gf3, List.map_cons, List.map_nil, pyMaxL, List.foldl, ratMax]; norm_num)
     (by simp only [gf3, List.map_cons, List.map_nil, pyMinL, List.foldl, ratMin]; norm_num)
     (by decide) (Or.inr (Or.inl ⟨rfl, rfl⟩))
-    (by intro ce h; cases h; exact Or.inr (Or.inl ⟨rfl, rfl⟩))
     (Or.inr (Or.inl ⟨rfl, by
       simp only [gf3]; unfold Gen.GJoinConsts.closeTolerance
       rw [abs_of_nonneg (by norm_num)]; norm_num⟩))
